@@ -13,6 +13,8 @@ Reply: `M <tok…> | S <tok…>` — model and specification outputs, one token 
 namespace Kolibrie.Driver.C04
 open Kolibrie.Proto Kolibrie.Store
 
+def keyword : String := "store"
+
 def quadKey (q : Quad) : List Nat := [q.s, q.p, q.o, q.g]
 def showQuads (l : List Quad) : String :=
   let ks := sortBy natListLe (l.map quadKey)
